@@ -1,11 +1,10 @@
-(* C09 — heap-level AVL tree: removal.  Proved here: unlinking a leaf and the
-   whole retracing loop of muggle_avl_tree_remove (balance updates, rotations
-   that continue upward, navigation through the parent links) keep the heap a
+(* C09 — heap-level AVL tree: removal, part 1.  Unlinking a leaf and the whole
+   retracing loop of muggle_avl_tree_remove (balance updates, rotations that
+   continue upward, navigation through the parent links) keep the heap a
    faithful representation with consistent parent links, and the result is the
    functional model's.  The key/value swap loop that first moves the data of an
-   interior node down to a leaf writes no pointer; its agreement with the
-   functional model's predecessor/successor choice is NOT proved here (it is
-   cross-checked by the model driver on every generated case). *)
+   interior node down to a leaf, and with it the removal of an arbitrary node and
+   every history, is in ProofsHeapSwap.v. *)
 From MV Require Import C09.Model C09.ModelHeap C09.Spec C09.ProofsAvl C09.ProofsHeapAvl C09.ProofsHeapIns.
 From Coq Require Import Arith.
 Local Open Scope Z_scope.
